@@ -29,6 +29,10 @@ import ast
 
 from . import pybytes, pyobj
 from .pyobj import MTr, NAT, INT, PROP, BOOL, BYTES, NATLIST, NONE, POISON, LEAN_RESERVED, lname, par, indent, tpar, falls_through, nested_jump
+
+
+def nested_jump_return(stmts):
+    return any(isinstance(n, ast.Return) for s in stmts for n in ast.walk(s))
 from .pybytes import OPT, is_opt, opt_of
 from .pyexpr import Untranslatable
 
@@ -75,10 +79,22 @@ def inject(v, t):
 
 
 class DTr(MTr):
+    FORBIDDEN = tuple(x for x in MTr.FORBIDDEN if x not in (ast.While, ast.Break))
+
     def __init__(self, prog, cls, owner, fn, argtypes, lean, iface, ctor=None, ctor_struct=None):
         self.iface = iface
         self.facts = {}
         self.used_rec = []
+        self.lift = bool(iface.get('lift'))      # loop bodies / duplicated continuations become separate definitions
+        self.lifted = []                         # [(name, text)] in dependency order
+        self.lift_cache = {}
+        self.lift_n = {'loop': 0, 'rest': 0}
+        self.probing = 0
+        self.breaks = []                         # per enclosing loop: continuation of `break` (None: not supported there)
+        self.kont_ty = None                      # Lean type of the innermost loop's state (what its continuation returns)
+        self.uses_while = False
+        if not self.lift and any(isinstance(n, (ast.While, ast.Break)) for n in ast.walk(fn)):
+            raise Untranslatable(f'{fn.name}: while / break outside a method declared for lifting')
         prog.direct = fn                      # the function node is given directly (it may be a renamed copy of a classmethod)
         try:
             super().__init__(prog, cls, owner, fn, argtypes, lean, ctor=ctor, ctor_struct=ctor_struct)
@@ -150,7 +166,23 @@ class DTr(MTr):
                 return f'(Py.Tl.getInt {x})', INT
             return x, DYN
         if isinstance(e, ast.Constant) and isinstance(e.value, str):
+            lit = self.iface.get('name_literals', {}).get(e.value)
+            if lit is not None:
+                return lit, NAME
             raise Untranslatable(f'string literal {e.value!r:.30} outside a declared context')
+        if isinstance(e, ast.Dict):
+            if not e.keys:
+                return '(Val.obj none [])', DYN
+            if len(e.keys) == 1 and e.keys[0] is not None:
+                k, kt = self.expr(e.keys[0])
+                v, vt = self.expr(e.values[0])
+                if kt == NAME and vt == TYS:
+                    return f'[Py.Tl.argOf {k} {v}]', ARGS          # a one-entry {field name: type string} dict
+            raise Untranslatable('dict literal')
+        if isinstance(e, ast.List) and e.elts:
+            xs = [self.expr(x) for x in e.elts]
+            if all(t == DYN for _, t in xs):
+                return '(Val.list [' + ', '.join(v for v, _ in xs) + '])', DYN
         if isinstance(e, ast.Call):
             r = self.dyn_call(e)
             if r is not None:
@@ -235,6 +267,12 @@ class DTr(MTr):
         return None
 
     def binop(self, e):
+        if (self.lift and isinstance(e.op, ast.Sub) and isinstance(e.left, ast.Constant) and type(e.left.value) is int and e.left.value > 0
+                and isinstance(e.right, ast.BinOp) and isinstance(e.right.op, ast.Mod) and isinstance(e.right.right, ast.Constant)
+                and type(e.right.right.value) is int and e.right.right.value == e.left.value):
+            x, xt = self.expr(e.right.left)
+            if xt == NAT:                       # k - x % k with a positive literal k and x >= 0: never negative
+                return f'({e.left.value} - {x} % {e.left.value})', NAT
         if isinstance(e.op, ast.Mult):
             l, r = self.expr(e.left), self.expr(e.right)
             if BYTES in (l[1], r[1]):
@@ -378,6 +416,11 @@ class DTr(MTr):
                 if kt != NAME:
                     raise Untranslatable(f'.get() with a {kt} key')
                 return self.hoist(f'Py.Tl.dictGet? {lname(f.value.id)} {k}', 'got'), OPT(DYN)
+            if f.attr == 'decode' and not e.args and not e.keywords:
+                v, t = self.expr(f.value)
+                if t == DYN:
+                    return self.hoist(f'Py.Tl.decode? {v}', 'str'), DYN
+                return None
             if f.attr == 'encode' and isinstance(f.value, ast.Name) and self.facts.get(f.value.id) == 'str' and not e.args and not e.keywords:
                 return f'(Py.Tl.encodeStr {lname(f.value.id)})', BYTES
             if (f.attr == 'fromhex' and isinstance(f.value, ast.Name) and f.value.id == 'bytes' and len(e.args) == 1 and not e.keywords
@@ -386,6 +429,9 @@ class DTr(MTr):
         return None
 
     def rec_call(self, e, name):
+        variant = self.iface.get('rec_variant')
+        if variant is not None:
+            name = variant(e, name)
         d = self.iface['rec'][name]
         a = self.kwargs(e, [n for n, _ in d['params']], d.get('defaults'))
         actual = []
@@ -418,10 +464,93 @@ class DTr(MTr):
             return self.block(stmts[1:], kont)
         if stmts and isinstance(stmts[0], ast.Assign) and len(stmts[0].targets) == 1 and isinstance(stmts[0].targets[0], ast.Tuple):
             return self.pair_assign(stmts[0], stmts[1:], kont)
+        if stmts and isinstance(stmts[0], ast.Break):
+            if not self.breaks or self.breaks[-1] is None:
+                raise Untranslatable('break outside a while loop')
+            return self.breaks[-1]()
+        if stmts and isinstance(stmts[0], ast.While):
+            return self.while_(stmts[0], stmts[1:], kont)
+        if stmts and isinstance(stmts[0], ast.Assign) and len(stmts[0].targets) == 1 and isinstance(stmts[0].targets[0], ast.Subscript):
+            v, t = self.expr(stmts[0].value) if not (isinstance(stmts[0].value, ast.List) and not stmts[0].value.elts) else ('(Val.list [])', DYN)
+            return self.store(stmts[0].targets[0], v, t, stmts[1:], kont)
+        if (stmts and isinstance(stmts[0], ast.Expr) and isinstance(stmts[0].value, ast.Call) and isinstance(stmts[0].value.func, ast.Attribute)
+                and stmts[0].value.func.attr == 'append' and isinstance(stmts[0].value.func.value, ast.Subscript)):
+            c = stmts[0].value
+            d, k = self.dict_slot(c.func.value)
+            if len(c.args) != 1 or c.keywords:
+                raise Untranslatable('append arguments')
+            x, xt = self.expr(c.args[0])
+            term = f'Py.Tl.dictAppend? {lname(d)} {k} {inject(x, xt)}'
+            pre = self.take_pre()
+            self.facts.pop(d, None)
+            return self.wrap(pre + [('bind', lname(d), term)], self.block(stmts[1:], kont))
         return super().block(stmts, kont)
+
+    def dict_slot(self, tg):
+        """d[k] with d a local holding a dict value and k a field name -> (d, Lean text of k)"""
+        if not (isinstance(tg.value, ast.Name) and self.env.get(tg.value.id) == DYN and tg.value.id not in self.py_params):
+            raise Untranslatable(f'store into {ast.unparse(tg)[:40]}')
+        k, kt = self.expr(tg.slice)
+        if kt != NAME:
+            raise Untranslatable(f'dict store with a {kt} key')
+        return tg.value.id, k
+
+    def store(self, tg, v, t, rest, kont):
+        """d[k] = v  /  d['@type'] = name  /  d[k]['@type'] = name"""
+        if isinstance(tg.slice, ast.Constant) and tg.slice.value == '@type':
+            if t != NAME:
+                raise Untranslatable(f"['@type'] = a {t}")
+            if isinstance(tg.value, ast.Name):
+                d = tg.value.id
+                if self.env.get(d) != DYN or d in self.py_params:
+                    raise Untranslatable(f'store into {d}')
+                pre = self.take_pre()
+                self.facts.pop(d, None)
+                return self.wrap(pre + [('bind', lname(d), f'Py.Tl.dictSetType? {lname(d)} {v}')], self.block(rest, kont))
+            if isinstance(tg.value, ast.Subscript):
+                d, k = self.dict_slot(tg.value)
+                item = self.hoist(f'Py.Tl.dictItem? {lname(d)} {k}', 'item')
+                item2 = self.hoist(f'Py.Tl.dictSetType? {item} {v}', 'item')
+                pre = self.take_pre()
+                self.facts.pop(d, None)
+                return self.wrap(pre, f'let {lname(d)} : Val := (Py.Tl.dictSet {lname(d)} {k} {item2})\n{self.block(rest, kont)}')
+            raise Untranslatable("['@type'] store shape")
+        d, k = self.dict_slot(tg)
+        pre = self.take_pre()
+        self.facts.pop(d, None)
+        return self.wrap(pre, f'let {lname(d)} : Val := (Py.Tl.dictSet {lname(d)} {k} {inject(v, t)})\n{self.block(rest, kont)}')
+
+    def assigned(self, stmts):
+        out = super().assigned(stmts)
+        for s in stmts:
+            for n in ast.walk(s):
+                root = None
+                if isinstance(n, ast.Subscript) and isinstance(n.ctx, ast.Store):
+                    root = n.value
+                elif isinstance(n, ast.Call) and isinstance(n.func, ast.Attribute) and n.func.attr == 'append' and isinstance(n.func.value, ast.Subscript):
+                    root = n.func.value.value
+                while isinstance(root, ast.Subscript):
+                    root = root.value
+                if isinstance(root, ast.Name) and root.id not in out:
+                    out.append(root.id)
+        return out
 
     def pair_assign(self, s, rest, kont):
         tg = s.targets[0]
+        if len(tg.elts) == 2 and isinstance(tg.elts[0], ast.Subscript) and isinstance(tg.elts[1], ast.Name):
+            v, t = self.expr(s.value)
+            if t != 'Pair':
+                raise Untranslatable(f'unpacking of a {t}')
+            b = tg.elts[1].id
+            self.key_of_target(ast.Name(id=b, ctx=ast.Store()))
+            self.facts.pop(b, None)
+            pre = self.take_pre()
+            # d[k] = pair.1 ; b = pair.2   (Python assigns the targets left to right)
+            d, k = self.dict_slot(tg.elts[0])
+            self.facts.pop(d, None)
+            self.env[b] = NAT
+            body = self.block(rest, kont)
+            return self.wrap(pre, f'let {lname(d)} : Val := (Py.Tl.dictSet {lname(d)} {k} {v}.1)\nlet {lname(b)} : Nat := {v}.2\n{body}')
         if len(tg.elts) != 2 or not all(isinstance(x, ast.Name) for x in tg.elts):
             raise Untranslatable('tuple assignment shape')
         v, t = self.expr(s.value)
@@ -437,6 +566,14 @@ class DTr(MTr):
         return self.wrap(pre, f'let {lname(a)} : Val := {v}.1\nlet {lname(b)} : Nat := {v}.2\n{body}')
 
     def let(self, pre, name, v, t, rest, kont):
+        want = self.iface.get('locals', {}).get(name)
+        if want is not None and t != want:
+            if t == NONE and is_opt(want):
+                v, t = 'none', want
+            elif is_opt(want) and t == opt_of(want):
+                v, t = f'(some {v})', want
+            else:
+                raise Untranslatable(f'{name} is assigned a {t}, declared {want}')
         if self.env.get(name) == DYN and t != DYN:
             v, t = inject(v, t), DYN
         self.facts.pop(name, None)
@@ -463,6 +600,13 @@ class DTr(MTr):
                 self.facts = dict(facts0)
 
         jump = nested_jump(s.body) or nested_jump(s.orelse)
+        if (self.lift and not self.probing and rest and jump and ft_a and ft_b and self.loops and kont is self.loops[-1]
+                and not nested_jump_return(list(s.body) + list(s.orelse))):
+            # both branches continue with the same statements: these become ONE separate definition instead of two copies
+            call = self.rest_def(s, list(rest), kont, env0)
+            a = branch(list(s.body), call, True)
+            b = branch(list(s.orelse), call, False)
+            return self.wrap(pre, f'if {c} then\n{a}\nelse\n{b}')
         if not rest or jump or not (ft_a and ft_b):
             # the statements after the `if` run without the narrowing of its test
             if rest and ft_a and new:
@@ -480,8 +624,12 @@ class DTr(MTr):
             ends.append(dict(self.env))
             return '_'
         f0 = self.fresh
-        branch(s.body, probe, True)
-        branch(s.orelse, probe, False)
+        self.probing += 1
+        try:
+            branch(s.body, probe, True)
+            branch(s.orelse, probe, False)
+        finally:
+            self.probing -= 1
         self.fresh = f0
         J = {}
         for m in M:
@@ -519,7 +667,189 @@ class DTr(MTr):
         finally:
             self.facts = dict(facts0)
 
+    # ------------------------------------------------------------------ loops as separate definitions (iface['lift'])
+    def free_locals(self, nodes, exclude):
+        names = set()
+        for s in nodes:
+            for n in ast.walk(s):
+                if isinstance(n, ast.Name):
+                    names.add(n.id)
+        return sorted(k for k in names if k in self.env and self.env[k] != POISON and not k.startswith('self_') and k not in exclude)
+
+    def scoped(self, keep, f):
+        """run f with the environment restricted to the names `keep` (+ the attributes of self), without narrowing facts"""
+        saved_env, saved_facts = self.env, self.facts
+        self.env = {k: v for k, v in saved_env.items() if k.startswith('self_') or k in keep}
+        self.facts = {}
+        try:
+            return f()
+        finally:
+            for k, v in self.env.items():
+                if k.startswith('self_') and k not in saved_env:
+                    saved_env[k] = v
+            self.env, self.facts = saved_env, saved_facts
+
+    def loop_fn(self, node, state, env0, x, xt, loop_env, prefix, has_brk):
+        """the body of a loop as a Lean function  state -> [element ->] Option state ; -> (function text, pattern, type, initial state)"""
+        if has_brk and ('brk' in self.env or 'brk' in loop_env):
+            raise Untranslatable('a local named brk')
+        names = (['brk'] if has_brk else []) + [lname(k) for k in state]
+        tys = (['Bool'] if has_brk else []) + [tpar(self.prog.lean_ty(env0[k])) for k in state]
+        pat = ', '.join(names) if names else '_u'
+        ty = ' × '.join(tys) if tys else 'Unit'
+        init = '(' + ', '.join((['false'] if has_brk else []) + [lname(k) for k in state]) + ')' if names else '()'
+
+        def pack(brk='false'):
+            vals = [brk] if has_brk else []
+            for k in state:
+                if self.env.get(k) != env0[k]:
+                    raise Untranslatable(f'{k} changes its type in the loop body ({env0[k]} -> {self.env.get(k)})')
+                vals.append(lname(k))
+            return 'some (' + ', '.join(vals) + ')' if vals else 'some ()'
+
+        def run():
+            self.env.update(loop_env)
+            for k in state:
+                self.facts.pop(k, None)
+            self.loops.append(pack)
+            self.breaks.append((lambda: pack('true')) if has_brk else None)
+            old, self.kont_ty = self.kont_ty, ty
+            try:
+                return self.block(list(node.body), pack)
+            finally:
+                self.loops.pop()
+                self.breaks.pop()
+                self.kont_ty = old
+        binder = f'(({pat}) : {ty})' + (f' ({lname(x)} : {self.prog.lean_ty(xt)})' if x is not None else '')
+        if not self.lift or self.probing:
+            env1, facts1 = dict(self.env), dict(self.facts)
+            try:
+                body = run()
+            finally:
+                self.env, self.facts = env1, facts1
+            return f'(fun {binder} =>\n{indent(prefix + body)})', pat, ty, init
+        free = self.free_locals(list(node.body) + ([node.test] if isinstance(node, ast.While) else []), set(state) | set(loop_env) | ({x} if x else set()))
+        sig = [(k, self.env[k]) for k in free]
+        hit = self.lift_cache.get(id(node))
+        if hit is not None:
+            if hit[1] != (sig, ty):
+                raise Untranslatable('a loop reached on two paths with different types of its variables')
+            name = hit[0]
+        else:
+            self.lift_n['loop'] += 1
+            name = f'{self.lean}_loop{self.lift_n["loop"]}'
+            self.lift_cache[id(node)] = (name, (sig, ty))
+            body = self.scoped(set(free) | set(state), run)
+            params = ' '.join(f'({lname(k)} : {self.prog.lean_ty(t)})' for k, t in sig)
+            fty = f'({ty}) → ' + (f'{tpar(self.prog.lean_ty(xt))} → ' if x is not None else '') + f'Option ({ty})'
+            self.lifted.append((name, f'def {name} ⟪PD⟫ {params} : {fty} :=\n  fun {binder} =>\n{indent(prefix + body)}\n'))
+        return '(' + ' '.join([name, '⟪PA⟫'] + [lname(k) for k in free]) + ')', pat, ty, init
+
+    def rest_def(self, node, rest, kont, env0):
+        """the statements after an `if` whose branches both reach them (inside a loop body) -> a continuation calling ONE definition"""
+        keep = sorted(k for k, t in env0.items() if not k.startswith('self_') and t != POISON)
+        sig = [(k, env0[k]) for k in keep]
+        hit = self.lift_cache.get(id(node))
+        if hit is not None:
+            if hit[1] != (sig, self.kont_ty):
+                raise Untranslatable('a statement reached on two paths with different types of its variables')
+            name = hit[0]
+        else:
+            self.lift_n['rest'] += 1
+            name = f'{self.lean}_rest{self.lift_n["rest"]}'
+            self.lift_cache[id(node)] = (name, (sig, self.kont_ty))
+            outer = dict(self.env)
+            self.env = dict(env0)
+            try:
+                body = self.scoped(set(keep), lambda: self.block(list(rest), kont))
+            finally:
+                self.env = outer
+            params = ' '.join(f'({lname(k)} : {self.prog.lean_ty(t)})' for k, t in sig)
+            self.lifted.append((name, f'def {name} ⟪PD⟫ {params} : Option ({self.kont_ty}) :=\n{indent(body)}\n'))
+
+        def call():
+            for k, t in sig:
+                if self.env.get(k) != t:
+                    raise Untranslatable(f'{k} has type {self.env.get(k)} on one path and {t} on another')
+            return ' '.join([name, '⟪PA⟫'] + [lname(k) for k in keep])
+        return call
+
+    def while_(self, s, rest, kont):
+        if s.orelse:
+            raise Untranslatable('while ... else')
+        self.uses_while = True
+        has_brk = any(isinstance(n, ast.Break) for n in ast.walk(s))
+        if any(isinstance(n, (ast.While, ast.For)) for b in s.body for n in ast.walk(b)):
+            raise Untranslatable('a loop inside a while loop')
+        pre = self.take_pre()
+        A = self.assigned(s.body)
+        state = sorted(k for k in A if k in self.env)
+        for k in state:
+            if self.env[k] == POISON:
+                raise Untranslatable(f'{k} is not defined on all paths reaching the loop that assigns it')
+        env0, facts0 = dict(self.env), dict(self.facts)
+        c = self.guarded(lambda: self.truth(self.expr(s.test)))
+        if self.pre:
+            raise Untranslatable('the loop condition can raise')
+        fn, pat, ty, init = self.loop_fn(s, state, env0, None, None, {}, '', has_brk)
+        self.env = dict(env0)
+        self.facts = {k: v for k, v in facts0.items() if k not in state}
+        for k in A:
+            if k not in state:
+                self.env[k] = POISON
+        r = self.block(rest, kont)
+        cond = f'(fun (({pat}) : {ty}) => {"!brk && " if has_brk else ""}decide {c})'
+        return self.wrap(pre, f'(Py.while? {cond} {fn} while_fuel {init}).bind fun (({pat}) : {ty}) =>\n{r}')
+
+    def for_lift(self, s, rest, kont):
+        if s.orelse:
+            raise Untranslatable('for ... else')
+        it = s.iter
+        prefix = ''
+        if (isinstance(s.target, ast.Tuple) and len(s.target.elts) == 2 and all(isinstance(x, ast.Name) for x in s.target.elts)
+                and isinstance(it, ast.Call) and isinstance(it.func, ast.Attribute) and it.func.attr == 'items' and not it.args and not it.keywords):
+            xs, lt = self.unopt(self.expr(it.func.value), 'args')          # None.items() raises
+            if lt != ARGS:
+                raise Untranslatable(f'.items() of a {lt}')
+            k, t = s.target.elts[0].id, s.target.elts[1].id
+            x, xt = 'arg_item', 'Arg'
+            prefix = f'let {lname(k)} : Nat := arg_item.name\nlet {lname(t)} : Py.Tl.TyS := Py.Tl.TyS.ofArg arg_item\n'
+            loop_env = {k: NAME, t: TYS}
+        elif isinstance(s.target, ast.Name) and isinstance(it, ast.Name) and self.env.get(it.id) == DYN and it.id not in self.facts:
+            xs = self.hoist(f'Py.Tl.listItems? {lname(it.id)}', 'items')
+            x, xt = s.target.id, DYN
+            loop_env = {x: DYN}
+        elif (isinstance(s.target, ast.Name) and isinstance(it, ast.Call) and isinstance(it.func, ast.Name) and it.func.id == 'range'
+              and 'range' not in self.env and not it.keywords and len(it.args) == 1):
+            xs = f'(List.range {self.index_nat(it.args[0], "range argument")})'
+            x, xt = s.target.id, NAT
+            loop_env = {x: NAT}
+        else:
+            raise Untranslatable(f'loop over {ast.unparse(it)[:40]}')
+        for n in list(loop_env) + [x]:
+            if self.env.get(n, POISON) != POISON or n in LEAN_RESERVED or n == 'H' or n.startswith('self_'):
+                raise Untranslatable(f'loop variable {n} shadows a name')
+        pre = self.take_pre()
+        A = self.assigned(s.body)
+        state = sorted(k for k in A if k in self.env and k not in loop_env)
+        for k in state:
+            if self.env[k] == POISON:
+                raise Untranslatable(f'{k} is not defined on all paths reaching the loop that assigns it')
+        env0, facts0 = dict(self.env), dict(self.facts)
+        fn, pat, ty, init = self.loop_fn(s, state, env0, x, xt, loop_env, prefix, False)
+        self.env = dict(env0)
+        self.facts = {k: v for k, v in facts0.items() if k not in state}
+        for k in A:
+            if k not in state:
+                self.env[k] = POISON
+        for n in loop_env:
+            self.env[n] = POISON
+        r = self.block(rest, kont)
+        return self.wrap(pre, f'(List.foldlM (m := Option) {fn} {init} {xs}).bind fun (({pat}) : {ty}) =>\n{r}')
+
     def for_(self, s, rest, kont):
+        if self.lift:
+            return self.for_lift(s, rest, kont)
         it = s.iter
         prefix = ''
         loop_env = {}
@@ -606,6 +936,18 @@ class DTr(MTr):
         for ln, d in recs:
             fty = ' → '.join([tpar(self.prog.lean_ty(t)) for _, t in d['params']] + [f'Option {tpar(self.prog.lean_ty(d["ret"]))}'])
             ps.append(f'({ln} : {fty})')
+        if self.lift:
+            # the context, the recursive callees, the loop budget and the attributes of self are the common parameters of the method
+            # and of the definitions lifted out of it
+            attrs = sorted((x for x in self.sig if x[0] == 'attr'), key=lambda x: x[2])
+            common = ps + (['(while_fuel : Nat)'] if self.uses_while else []) + [f'({ln} : {self.prog.lean_ty(t)})' for _, _, ln, t in attrs]
+            names = [n for n, _ in ctx if n != 'H' or self.uses_H] + [ln for ln, _ in recs] + (['while_fuel'] if self.uses_while else []) + [ln for _, _, ln, _ in attrs]
+            fill = lambda txt: txt.replace('⟪PD⟫', ' '.join(common)).replace('⟪PA⟫', ' '.join(names))
+            args = [f'({ln} : {self.prog.lean_ty(t)})' for k, _, ln, t in self.sig if k != 'attr']
+            doc = pybytes.doc_of(self.fn, f'{self.prog.src}: {self.owner}.{self.fn.name}')
+            text = fill(f'{doc}def {self.lean} {" ".join(common + args)} : Option ({rt}) :=\n{indent(body)}\n')
+            return dict(lean=self.lean, sig=self.sig, ret=self.ret_type, mutated=[], text=text, rec=[n for n, _ in recs],
+                        lifted=[(n, fill(t)) for n, t in self.lifted], common=names)
         sig = [x for x in self.sig if x[0] != 'attr'] + sorted((x for x in self.sig if x[0] == 'attr'), key=lambda x: x[2])   # canonical order
         ps += [f'({ln} : {self.prog.lean_ty(t)})' for k, _, ln, t in sig]
         doc = pybytes.doc_of(self.fn, f'{self.prog.src}: {self.owner}.{self.fn.name}')
